@@ -2,3 +2,4 @@ pub mod trace;
 pub mod sel;
 pub mod linktraffic;
 pub mod netwire;
+pub mod fsdirect;
